@@ -520,6 +520,22 @@ func runC18(e *Env) error {
 				viol("failing-input", "lint-output-unreadable", fmt.Sprintf("exit %d: %s %s", o.Code, trunc(o.Stdout, 200), trunc(o.Stderr, 200)), "Props.C18", rep)
 				continue
 			}
+			// every file of the window is analysed and reported, whatever the files in front of it hold
+			{
+				seen := map[string]bool{}
+				for _, lf := range lo.Files {
+					seen[lf.Name] = true
+				}
+				var missing []string
+				for fi := nf - latest; fi < nf; fi++ {
+					if n := fmt.Sprintf("%d_f.sql", fi+1); fi >= 0 && !seen[n] {
+						missing = append(missing, n)
+					}
+				}
+				if len(missing) > 0 {
+					viol("failing-input", "window-file-not-analysed", fmt.Sprintf("--latest %d of %d files: the report has no entry for %v (reported: %d files, exit %d)", latest, nf, missing, len(lo.Files), o.Code), "Props.C18 every destructive file flagged (window)", rep)
+				}
+			}
 			anyFlag, anyGroup, judged := false, false, true
 			for _, lf := range lo.Files {
 				var fi int
